@@ -699,4 +699,18 @@ def fixed_programs():
             if nm != "Shape":
                 body += [Echo(Fld(Var(v), "ctag")), Echo(MCall(Var(v), "late2"))]
         out.append(Program([Func("main", [], VOID, body)], [log, shape, circle, dot]))
+    # element assignments whose index or value expression calls a method that itself writes the same field array: the writes made by
+    # the call persist (a[0] = bump() behaves like 't = bump(); a[0] = t'), for instance fields, static fields and through a relay
+    IA = A("int")
+    acc = Class("Acc", "", [Field(IA, "arr", Arr("int", [I(0), I(0), I(0)])), Field(INT, "k", I(0))],
+                [Method("bump", [], INT, [Expr(AAsg("arr", I(1), I(5))), Expr(Asg("k", Bin("+", Var("k"), I(1)))), Ret(Bin("+", I(6), Var("k")))]),
+                 Method("slot", [], INT, [Expr(AAsg("arr", I(2), Bin("+", Idx(Var("arr"), I(2)), I(4)))), Ret(I(0))]),
+                 Method("relay", [], INT, [Ret(MCall(This(), "bump", bare=True))]),
+                 Method("go", [], VOID, [Expr(AAsg("arr", I(0), MCall(This(), "bump", bare=True))), Echo(Var("arr")),
+                                        Expr(AAsg("arr", MCall(This(), "slot", bare=True), I(9))), Echo(Var("arr")),
+                                        Expr(AAsg("arr", MCall(This(), "slot", bare=True), MCall(This(), "relay", bare=True))), Echo(Var("arr")),
+                                        Decl(INT, "t", MCall(This(), "bump", bare=True)), Expr(AAsg("arr", I(2), Var("t"))), Echo(Var("arr")), Echo(Var("k"))])],
+                [Ctor([], [])], [])
+    out.append(Program([Func("main", [], VOID, [Decl(C("Acc"), "a", New("Acc")), Expr(MCall(Var("a"), "go")), Decl(C("Acc"), "b", New("Acc")),
+                                                Expr(MCall(Var("b"), "go")), Echo(Fld(Var("a"), "arr"))])], [acc]))
     return out
